@@ -3,21 +3,30 @@ import os
 from vlib import common as C, msglib as L
 
 MANIFEST = {
-    "text": "Lean theorems: queue_abs_invariant (for every sequence of coap_insert_node / coap_pop_next / coap_remove_from_queue / "
-            "cancel / backward coap_adjust_basetime operations the delta-time send queue represents the sorted multiset of absolute "
-            "deadlines and each operation commutes with the absolute-deadline specification S), calc_timeout_bounds (+ the uint16 wrap "
-            "witness), wait_le_earliest, retransmit_step / giveup_step / due_head_retransmitted about the transcription M of "
-            "coap_wait_ack, coap_retransmit and coap_io_prepare_io_lkd; retransmit_schedule (every transmission at t0 + (2^k-1)T, "
-            "k <= MAX_RETRANSMIT), single_outcome (sends = outcomes + pending per message), no_tx_without_pending, due_fires for every "
-            "event sequence of the timer system S; the M-level end-to-end schedule is proved for one message on an idle endpoint "
-            "(m_retransmit_schedule_partial, m_solo_giveup/acked/rst/quiet_after).  M is tied to the compiled code on every run by exact trace "
-            "equality on a virtual-time simulation harness (transmissions with timestamps and byte identity, NACKs, con_active, the whole "
-            "send queue with absolute deadlines after every event), incl. every drop subset of the first 10 datagrams of an exchange.",
+    "text": "Lean theorems: queue_abs_invariant (every sequence of coap_insert_node / coap_pop_next / coap_remove_from_queue / cancel / "
+            "backward coap_adjust_basetime operations: the delta-time send queue represents the sorted multiset of absolute deadlines, "
+            "each operation commutes with S), calc_timeout_bounds (+ uint16 wrap witness), wait_le_earliest / wait_le_every_deadline (any "
+            "state, all sessions, incl. the 32-bit reduction); retransmit_schedule, single_outcome, no_tx_without_pending, due_fires for "
+            "every event sequence of the timer system S.  For the code model M (coap_send/coap_wait_ack, coap_retransmit, due loop of "
+            "coap_io_prepare_io_lkd, dispatch, NSTART gate + delay queue), EVERY event sequence that keeps sessions established, any "
+            "number of messages and sessions sharing the queue: m_schedule_all (punctual runs: every CON transmission at t0 + (2^k-1)T "
+            "of its own coap_send, T the ONE coap_calc_timeout value drawn there, k <= MAX_RETRANSMIT), m_pending_on_schedule, "
+            "m_giveup_after_all_retransmissions, m_at_most_max_retransmissions, m_transmissions_exactly (cnt+1 transmissions, each slot "
+            "once), m_giveup_exactly_max, m_due_fires, punctual_of_clock, m_single_outcome "
+            "(accepted sends = outcome NACKs + ACK completions + queued + delayed), m_never_sent_again; for EVERY event and state "
+            "pdu_and_timeout_never_modified (mid/token/type and stored timeout of a node never change).  m_refines_timer_partial: exact "
+            "simulation M -> S (same pending list, same observable outputs in order) when CONs are submitted with NSTART room and no "
+            "submission/RST races a due retransmission.  M is tied to the compiled code on every run by exact trace equality on a "
+            "virtual-time harness (transmissions with timestamps and byte identity, NACKs, con_active, the whole send queue after "
+            "every event), incl. every drop subset of the first 10 datagrams.",
     "note": "Trusted: Lean kernel (+ propext, Classical.choice, Quot.sound), harness/sim_core.h + msg.c (--wrap clock/network), the scenario "
-            "interpreter Driver/Msg.lean, generators/oracles, the hand transcription M (checked on the cases run only).  The transfer of the "
-            "S-level schedule/outcome theorems to M is proved per operation and end-to-end for a single message; for several messages it "
-            "rests on those step theorems plus the differential runs.  coap_adjust_basetime moved forward is an open finding "
-            "(adjust_commutes_partial + adjust_forward_witness).  Real-time behaviour of epoll_wait is not modelled.",
+            "interpreter Driver/Msg.lean, generators/oracles, the hand transcription M (checked on the cases run only).  M-level theorems: "
+            "sessions stay established (no hold/disconnect: session failure is C08's), no-wrap range D7, T > 0.  "
+            "M has no PDU bytes: byte identity = constancy of the node fields standing for the PDU (Lean) + byte comparison of every "
+            "retransmitted datagram on the real code (T2).  The exact simulation is `_partial` because S's tick fires everything due "
+            "before anything else at an instant (same-instant ORDER differs for a delayed message let in by a give-up, or a submission / "
+            "RST racing a due retransmission); those runs are covered by the direct M-level theorems.  coap_adjust_basetime forward is an "
+            "open finding (adjust_commutes_partial + adjust_forward_witness).  Real-time behaviour of epoll_wait is not modelled.",
     "design_ref": "DESIGN.md §4 C06, design/C06.md",
 }
 LEAN_MODULES = ["CoapVerif.Props.C06"]
@@ -26,7 +35,14 @@ REQUIRED_THEOREMS = ["queue_abs_invariant", "insert_commutes", "pop_commutes", "
                      "adjust_forward_witness", "calc_timeout_bounds", "calc_timeout_wraps", "qfix_approx", "wait_le_earliest",
                      "retransmit_step", "giveup_step", "due_head_retransmitted", "no_early_retransmit", "base_le_now_invariant",
                      "retransmit_schedule", "single_outcome", "no_tx_without_pending", "queue_empty_all_concluded", "due_fires",
-                     "m_solo_giveup", "m_solo_acked", "m_solo_rst"]
+                     "m_solo_giveup", "m_solo_acked", "m_solo_rst",
+                     "wait_le_every_deadline", "m_schedule_all", "m_pending_on_schedule", "m_due_fires", "m_single_outcome",
+                     "m_never_sent_again", "m_pdu_and_timeout_fixed", "m_giveup_after_all_retransmissions",
+                     "m_at_most_max_retransmissions", "sleep_returned_wait_ok", "punctual_of_clock",
+                     "pdu_and_timeout_never_modified", "pdu_and_timeout_never_modified_step", "sim_gate_order_witness",
+                     "m_transmissions_exactly", "m_giveup_exactly_max", "m_wait_exact_and_positive",
+                     "m_refines_timer_partial", "m_refines_timer_from_partial", "m_schedule_via_timer_partial",
+                     "m_single_outcome_via_timer_partial"]
 RULE = ("scenario lines for harness/msg.c (one real client context, 1-3 UDP sessions sharing the send queue, virtual clock, "
         "scripted peer): every drop subset of the first 10 datagrams of an exchange (5 transmissions x 5 ACKs) for several "
         "parameter sets and ACK delays placed just before / at / after each timer deadline; random multi-message, "
@@ -41,8 +57,12 @@ TRUSTED_BASE = ["Lean 4.33 kernel; axioms allowed: propext, Classical.choice, Qu
                 "against the compiled code by exact trace equality (transmissions with virtual timestamps, NACKs, con_active, "
                 "delay-queue lengths, the whole send queue with absolute deadlines after every event) on the cases run only"]
 ASSUMPTIONS = ["D7: ping_timeout = 0; transmission parameters where Q()'s uint16_t cast does not wrap and T << MAX_RETRANSMIT fits "
-               "32 bits (witness calc_timeout_wraps documents the other range)",
-               "retransmit_schedule: the application runs the I/O loop no later than the wait the library returned",
+               "32 bits (witness calc_timeout_wraps documents the other range); M-level theorems: T > 0, MAX_RETRANSMIT < 256, "
+               "T << MAX_RETRANSMIT < 2^64",
+               "retransmit_schedule / m_schedule_all: the application runs the I/O loop no later than the wait the library returned "
+               "(`Punctual`: no I/O step, submission or arrival after the clock was moved past a pending deadline)",
+               "M-level theorems (section 7): every event except hold/disconnect, on sessions that are established with an open "
+               "socket, NSTART >= 1, nothing delayed initially; pdu_and_timeout_never_modified: no assumption",
                "UDP client sessions, block mode off, no OSCORE, unicast; real-time behaviour of epoll_wait is not modelled "
                "(the harness is the event loop)",
                "compiled Lean definitions agree with the kernel's reading of them"]
